@@ -331,7 +331,9 @@ def check_cursor_model(ctx, persist_recs):
 def native_power(ctx, extra=None):
     progs = [['w', 'w', 'p:syncdata', 'x', 'w', 'x', 'p:syncall', 'x', 'w', 'b', 'x'],
              ['w', 'p:buffer', 'x', 'w', 'p:syncall', 'x', 'b', 'p:syncdata', 'x'],
-             ['b', 'p:syncall', 'x', 'w', 'p:buffer', 'p:syncdata', 'x']]
+             ['b', 'p:syncall', 'x', 'w', 'p:buffer', 'p:syncdata', 'x'],
+             ['w', 'p:syncall', 'c', 'p:syncall', 'x', 'w', 'p:syncdata', 'c', 'p:syncdata', 'x'],          # a clear is a write like any other
+             ['v', 'w', 'r', 'x', 'p:syncall', 'x', 'v', 'w', 'r', 'v', 'p:syncdata', 'x']]                   # journal rotation: the sealed journal holds b's unflushed writes
     last = (False, None, 'not run')
     for i, st in enumerate((extra or []) + progs):
         for manual in (0, 1):
